@@ -50,6 +50,8 @@ func c03Envs(r *core.Rand) []map[string]any {
 		b["st"] = &gen.DataStruct{Name: "s", Items: []int{3, 1, 2}, M: map[string]any{"z": 1}}
 		out = append(out, b)
 	}
+	// an empty (but not nil) map, and a nil map: assign/capture/loop variables must not be written into them
+	out = append(out, map[string]any{}, nil)
 	return out
 }
 
